@@ -94,6 +94,79 @@ def _jsonable(v):
     return repr(v)
 
 
+def concrete(*vals):
+    """Realise symbolic values (each realisation is a fork of the path tree: the remaining
+    values are explored on other paths, so exhaustiveness is kept).  No-op on plain CPython."""
+    out = tuple(_realize(v) for v in vals)
+    return out if len(out) != 1 else out[0]
+
+
+def pick(x, lo, hi):
+    """Concrete int equal to x on this path, for lo <= x <= hi.  A linear chain of solver-decided
+    equality tests: exactly one leaf of the path tree per feasible value (cheaper in paths than
+    CrossHair's own realisation).  On plain CPython returns x."""
+    if not _is_symbolic(x):
+        return x
+    if x < lo or x > hi:
+        return _realize(x)
+    while lo < hi:                       # binary chain: one leaf per feasible value, log2(n) decisions
+        mid = (lo + hi) // 2
+        if x <= mid:
+            hi = mid
+        else:
+            lo = mid + 1
+    return lo
+
+
+def _is_symbolic(x):
+    try:
+        from crosshair import NoTracing
+        from crosshair.tracers import is_tracing
+    except ImportError:
+        return False
+    if not is_tracing():
+        return False
+    with NoTracing():
+        return type(x) not in (int, bool)
+
+
+def pickb(x):
+    return True if x else False
+
+
+class _Null:
+    def __enter__(self):
+        return self
+
+    def __exit__(self, *a):
+        return False
+
+
+def untraced():
+    """Context in which CrossHair does not intercept execution (oracle code on realised values
+    runs at native speed).  Only realised values may be touched inside."""
+    try:
+        from crosshair import NoTracing
+        from crosshair.tracers import is_tracing
+        if is_tracing():
+            return NoTracing()
+    except ImportError:
+        pass
+    return _Null()
+
+
+def first_diff(got, want):
+    if isinstance(got, dict) and isinstance(want, dict):
+        for k in want:
+            if got.get(k) != want[k]:
+                return "%s: got %r want %r" % (k, got.get(k), want[k])
+        for k in got:
+            if k not in want:
+                return "%s: unexpected %r" % (k, got[k])
+        return None
+    return None if got == want else "got %r want %r" % (got, want)
+
+
 def reset():
     global REACHED, CALLS
     REACHED = 0
